@@ -890,12 +890,15 @@ End Syn.
 
 Theorem history_generic_hide h om pm pr : In 0 pr -> forall ops,
   id_inj (loaded ops) -> TG h (rmatch om pm) pr (loaded ops) -> (forall g, In g (loaded ops) -> wfp g = true) ->
-  generic_hide_hit (rmatch om pm) pr (hrun h ops) = spec_generic_hide (rmatch om pm) (loaded ops).
+  generic_hide_hit (rmatch om pm) pr (hrun h ops) = spec_generic_hide (rmatch om pm) (loaded ops) (tagset ops).
 Proof.
   intros pr_zero ops Hinj Htg Hw.
-  destruct (history_semrep h om pm ops Hinj Hw) as (_ & _ & _ & _ & _ & _ & _ & Sg & _).
+  destruct (history_semrep h om pm ops Hinj Hw) as (_ & _ & _ & _ & _ & _ & _ & Sg & _ & Htags).
   unfold generic_hide_hit, spec_generic_hide.
-  exact (semlist_found h om pm pr pr_zero _ _ [] Sg (TG_incl h _ pr _ _ (of_cat_incl CGenericHide (loaded ops)) Htg)).
+  change (match check (rmatch om pm) (b_generic_hide (hrun h ops)) pr (b_tags (hrun h ops)) with Some _ => true | None => false end)
+    with (found_b om pm pr (b_generic_hide (hrun h ops)) (b_tags (hrun h ops))).
+  rewrite (semlist_found h om pm pr pr_zero _ _ (b_tags (hrun h ops)) Sg (TG_incl h _ pr _ _ (of_cat_incl CGenericHide (loaded ops)) Htg)).
+  apply existsb_ext. intros f. apply (hitr_ext om pm _ _ f Htags).
 Qed.
 
 (* ================================================================ example (non-vacuity) *)
